@@ -133,6 +133,12 @@ type SGroup struct {
 	LastID      string
 	EntriesRead string // "" when not given
 	Pel         []SNack
+	// Consumers: the group's consumers by name, in creation order (XGROUP CREATECONSUMER, or the
+	// first XCLAIM that really claims an entry for the name)
+	Consumers [][]byte
+	// ConsumersWithPending: (expected values) the consumers that own a pending entry whose item
+	// is still in the stream - all that commands can carry to a target older than 6.2
+	ConsumersWithPending [][]byte
 }
 type StreamVal struct {
 	Entries      []SEntry
@@ -153,6 +159,8 @@ type Val struct {
 	Stream  *StreamVal
 	// StreamVer is the RDB stream format version (1..4) of an expected value
 	StreamVer int
+	// Shape: (generated streams) what the stream exercises, for the coverage counters
+	Shape *StreamShape
 	Payload   []byte // kind restored: the RESTORE payload
 	TTL     int64  // milliseconds handed to RESTORE / PEXPIRE; 0 = none
 	ExpAt   int64 // absolute expiry the request established (target clock at the request + TTL), ms; 0 = none
@@ -213,10 +221,50 @@ func (v *Val) Canon() string {
 			for _, n := range pel {
 				sb.WriteString(fmt.Sprintf(" (%s %s %s %s)", n.ID, hx(n.Consumer), n.Time, n.Count))
 			}
+			var cs []string
+			for _, cn := range g.Consumers {
+				cs = append(cs, hx(cn))
+			}
+			sort.Strings(cs)
+			sb.WriteString(" consumers=" + strings.Join(cs, ","))
 			sb.WriteString("}")
 		}
 	case "restored":
 		sb.WriteString(" " + hx(v.Payload) + " idle=" + v.Idle + " freq=" + v.Freq)
+	}
+	return sb.String()
+}
+
+// OrderedStream renders a stream value WITHOUT sorting (entries, groups in creation order,
+// pending entries in the order XCLAIM created them) in the format of the Lean driver's
+// `svv` op (showXStream): the denotation StreamE.xval is compared with it verbatim.
+func OrderedStream(s *StreamVal) string {
+	opt := func(x string) string {
+		if x == "" {
+			return "-"
+		}
+		return x
+	}
+	var sb strings.Builder
+	sb.WriteString(fmt.Sprintf("last=%s added=%s maxdel=%s", s.LastID, opt(s.EntriesAdded), opt(s.MaxDeleted)))
+	for _, e := range s.Entries {
+		sb.WriteString(" [" + e.ID)
+		for _, f := range e.Fields {
+			sb.WriteString(" " + hx(f))
+		}
+		sb.WriteString("]")
+	}
+	for _, g := range s.Groups {
+		sb.WriteString(fmt.Sprintf(" {g=%s last=%s read=%s", hx(g.Name), g.LastID, opt(g.EntriesRead)))
+		for _, n := range g.Pel {
+			sb.WriteString(fmt.Sprintf(" (%s %s %s %s)", n.ID, hx(n.Consumer), n.Time, n.Count))
+		}
+		var cs []string
+		for _, cn := range g.Consumers {
+			cs = append(cs, hx(cn))
+		}
+		sb.WriteString(" consumers=" + strings.Join(cs, ","))
+		sb.WriteString("}")
 	}
 	return sb.String()
 }
@@ -267,6 +315,12 @@ type Target struct {
 	// Major is the target's major version: RESTORE refuses value types this
 	// version cannot load with "ERR Bad data format" (0 = accepts everything)
 	Major int
+	// Minor is the target's minor version (XGROUP CREATECONSUMER exists from 6.2 on)
+	Minor int
+	// XclaimNoEntry counts the XCLAIM ... FORCE requests that named an id that is not an entry
+	// of the stream (no pending entry is created: t_stream.c xclaimCommand); XclaimClamped the
+	// TIME arguments above the target's clock (stored as now)
+	XclaimNoEntry, XclaimClamped int
 	// BadFormat counts the RESTOREs refused with "Bad data format"
 	BadFormat int
 }
@@ -621,30 +675,91 @@ func (c *Conn) apply(cmd string, args []interface{}) (interface{}, error) {
 		if _, _, ok := parseID(key(1)); !ok {
 			return nil, RedisError("ERR Invalid stream ID specified as stream command argument")
 		}
-		if len(s.Entries) > 0 && cmpIDs(key(1), s.Entries[len(s.Entries)-1].ID) < 0 {
-			return nil, RedisError("ERR The ID specified in XSETID is smaller than the target stream top item")
+		if c.T.Major < 7 && len(args) != 2 {
+			// Redis 5 / 6: XSETID key id, arity exactly 3 (ENTRIESADDED / MAXDELETEDID are 7.0)
+			return nil, RedisError("ERR wrong number of arguments for 'xsetid' command")
 		}
-		s.LastID = key(1)
+		// t_stream.c xsetidCommand (7.0+): options first, then the checks against the stream
+		added, maxDel := "", ""
 		for i := 2; i < len(args); i++ {
 			switch strings.ToUpper(key(i)) {
 			case "ENTRIESADDED":
 				i++
-				if _, err := strconv.ParseInt(key(i), 10, 64); err != nil {
+				if i >= len(args) {
+					return nil, RedisError("ERR syntax error")
+				}
+				n, err := strconv.ParseInt(key(i), 10, 64) // a long long: at most 2^63-1
+				if err != nil {
 					return nil, RedisError("ERR value is not an integer or out of range")
 				}
-				s.EntriesAdded = key(i)
+				if n < 0 {
+					return nil, RedisError("ERR entries_added must be positive")
+				}
+				added = key(i)
 			case "MAXDELETEDID":
 				i++
+				if i >= len(args) {
+					return nil, RedisError("ERR syntax error")
+				}
 				if _, _, ok := parseID(key(i)); !ok {
 					return nil, RedisError("ERR Invalid stream ID specified as stream command argument")
 				}
-				s.MaxDeleted = key(i)
+				if cmpIDs(key(1), key(i)) < 0 {
+					return nil, RedisError("ERR The ID specified in XSETID is smaller than the provided max_deleted_entry_id")
+				}
+				maxDel = key(i)
 			default:
 				return nil, RedisError("ERR syntax error")
 			}
 		}
+		if len(s.Entries) > 0 {
+			if cmpIDs(key(1), s.Entries[len(s.Entries)-1].ID) < 0 {
+				return nil, RedisError("ERR The ID specified in XSETID is smaller than the target stream top item")
+			}
+			if added != "" {
+				if n, _ := strconv.ParseInt(added, 10, 64); int64(len(s.Entries)) > n {
+					return nil, RedisError("ERR The entries_added specified in XSETID is smaller than the target stream length")
+				}
+			}
+		}
+		s.LastID = key(1)
+		if added != "" {
+			s.EntriesAdded = added
+		}
+		if maxDel != "" {
+			// (a 0-0 MAXDELETEDID leaves the field as it is: 0-0 on a stream that never had one)
+			if cmpIDs(maxDel, "0-0") != 0 || s.MaxDeleted == "" {
+				s.MaxDeleted = maxDel
+			}
+		}
 		return "OK", nil
 	case "xgroup":
+		if strings.ToUpper(key(0)) == "CREATECONSUMER" {
+			// XGROUP CREATECONSUMER key group consumer (Redis 6.2): 1 = created, 0 = it existed
+			if c.T.Major < 6 || (c.T.Major == 6 && c.T.Minor < 2) {
+				return nil, RedisError("ERR Unknown subcommand or wrong number of arguments for 'CREATECONSUMER'. Try XGROUP HELP.")
+			}
+			if len(args) != 4 {
+				return nil, RedisError("ERR Unknown subcommand or wrong number of arguments for 'CREATECONSUMER'. Try XGROUP HELP.")
+			}
+			v, ok := d[key(1)]
+			if !ok || v.Kind != "stream" {
+				return nil, RedisError("ERR The XGROUP subcommand requires the key to exist.")
+			}
+			for i := range v.Stream.Groups {
+				g := &v.Stream.Groups[i]
+				if string(g.Name) == key(2) {
+					for _, cn := range g.Consumers {
+						if string(cn) == key(3) {
+							return int64(0), nil
+						}
+					}
+					g.Consumers = append(g.Consumers, []byte(key(3)))
+					return int64(1), nil
+				}
+			}
+			return nil, RedisError("NOGROUP No such consumer group '" + key(2) + "' for key name '" + key(1) + "'")
+		}
 		if strings.ToUpper(key(0)) != "CREATE" || len(args) < 4 {
 			return nil, RedisError("ERR syntax error")
 		}
@@ -668,6 +783,10 @@ func (c *Conn) apply(cmd string, args []interface{}) (interface{}, error) {
 		for i := 4; i < len(args); i++ {
 			switch strings.ToUpper(key(i)) {
 			case "ENTRIESREAD":
+				if c.T.Major < 7 {
+					// Redis 5 / 6 know MKSTREAM only
+					return nil, RedisError("ERR syntax error")
+				}
 				i++
 				n, err := strconv.ParseInt(key(i), 10, 64)
 				if err != nil {
@@ -700,15 +819,72 @@ func (c *Conn) apply(cmd string, args []interface{}) (interface{}, error) {
 		if g == nil {
 			return nil, RedisError("NOGROUP No such key or consumer group")
 		}
-		if len(args) != 11 || strings.ToUpper(key(5)) != "TIME" || strings.ToUpper(key(7)) != "RETRYCOUNT" ||
-			strings.ToUpper(key(9)) != "JUSTID" || strings.ToUpper(key(10)) != "FORCE" {
+		// XCLAIM key group consumer min-idle id TIME ms RETRYCOUNT n JUSTID FORCE [LASTID id]
+		// (the one-id forms the tool and a repaired tool may send; option words are inspected)
+		if (len(args) != 11 && len(args) != 13) || strings.ToUpper(key(5)) != "TIME" || strings.ToUpper(key(7)) != "RETRYCOUNT" ||
+			strings.ToUpper(key(9)) != "JUSTID" || strings.ToUpper(key(10)) != "FORCE" ||
+			(len(args) == 13 && strings.ToUpper(key(11)) != "LASTID") {
 			return nil, RedisError("ERR syntax error")
+		}
+		if _, err := strconv.ParseInt(key(3), 10, 64); err != nil {
+			return nil, RedisError("ERR Invalid min-idle-time argument for XCLAIM")
 		}
 		id := key(4)
 		if _, _, ok := parseID(id); !ok {
 			return nil, RedisError("ERR Invalid stream ID specified as stream command argument")
 		}
-		n := SNack{ID: id, Consumer: []byte(key(2)), Time: key(6), Count: key(8)}
+		tm, err := strconv.ParseInt(key(6), 10, 64)
+		if err != nil {
+			return nil, RedisError("ERR Invalid TIME option argument for XCLAIM")
+		}
+		rc, err := strconv.ParseInt(key(8), 10, 64)
+		if err != nil || rc < 0 {
+			return nil, RedisError("ERR Invalid RETRYCOUNT option argument for XCLAIM")
+		}
+		if len(args) == 13 {
+			if _, _, ok := parseID(key(12)); !ok {
+				return nil, RedisError("ERR Invalid stream ID specified as stream command argument")
+			}
+			if cmpIDs(key(12), g.LastID) > 0 {
+				g.LastID = key(12)
+			}
+		}
+		// "if the value is bogus" (negative or in the future of this server) the delivery time is now
+		if now := c.T.now(); c.T.Now != nil && (tm < 0 || tm > now) {
+			tm = now
+			c.T.XclaimClamped++
+		}
+		// "Item must exist for us to transfer it to another consumer" / FORCE creates the pending
+		// entry only "if at least the entry exists in the Stream" (all versions); since 7.0 a pending
+		// entry whose item is gone is dropped here
+		exists := false
+		for _, e := range s.Entries {
+			if e.ID == id {
+				exists = true
+			}
+		}
+		if !exists {
+			c.T.XclaimNoEntry++
+			if c.T.Major == 0 || c.T.Major >= 7 {
+				for i := range g.Pel {
+					if g.Pel[i].ID == id {
+						g.Pel = append(g.Pel[:i], g.Pel[i+1:]...)
+						break
+					}
+				}
+			}
+			return []interface{}{}, nil
+		}
+		known := false
+		for _, cn := range g.Consumers {
+			if string(cn) == key(2) {
+				known = true
+			}
+		}
+		if !known {
+			g.Consumers = append(g.Consumers, []byte(key(2)))
+		}
+		n := SNack{ID: id, Consumer: []byte(key(2)), Time: strconv.FormatInt(tm, 10), Count: key(8)}
 		for i := range g.Pel {
 			if g.Pel[i].ID == id {
 				g.Pel[i] = n
